@@ -217,7 +217,7 @@ def tv_unit(eng, u, cpath):
         decls.append(f"extern uint64_t {u.prefix}{r}(uint8_t*, uint64_t, uint8_t*, uint64_t, uint64_t, uint64_t);")
         ents.append('{"%s", %sF_%s, %s%s, %d, %d, %d, {%s}, %d, {%s}, %d, %d, %d}' % (
             r, u.prefix, r, u.prefix, r, sp.get("min_n", 0), sp.get("max_n", 48), len(p0), ",".join(str(x) + "ULL" for x in p0),
-            len(p1), ",".join(str(x) + "ULL" for x in p1), upto, 1 if sp.get("cap_is_n") else 0, 1 if (r.startswith("vk_st_") or sp.get("state")) else 0))
+            len(p1), ",".join(str(x) + "ULL" for x in p1), upto, 1 if sp.get("cap_is_n") else 0, 1 if (r.startswith("vk_st_") or r.startswith("vk_tw_") or sp.get("state")) else 0))
     src = os.path.join(eng.work, "tv_" + u.key() + ".c")
     with open(src, "w") as f:
         f.write(f'#include "{VERIF}/ll2c/ll2c_rt.h"\n#include "{c}"\n#include "{VERIF}/models/models.c"\n')
